@@ -36,6 +36,17 @@ def cases(seed, tier):
                                  p_async=0.5)
         else:
             P = gdirect.gen(prng, max_tasks=7, p_async=0.5)
+        if i % 4 == 3:
+            # a with-items task (actions or - in trees - whatever the task
+            # already runs): stop while some items are done, some running
+            plain = [T for Q in gdirect.all_programs(P) for T in Q['tasks']
+                     if not T.get('workflow') and not T.get('policies')]
+            if plain:
+                T = prng.choice(plain)
+                T['with_items'] = 'i in <% [0, 1, 2, 3] %>'
+                T['async'] = prng.random() < 0.7
+                if prng.random() < 0.6:
+                    T['concurrency'] = prng.randint(1, 3)
         outcomes = gdirect.gen_outcomes(prng, P, p_fail=0.15)
         out.append({
             'program': P, 'outcomes': outcomes,
